@@ -3,6 +3,7 @@ import Pyunicorn.Lemmas.RandomB
 import Pyunicorn.Lemmas.RandomC
 import Pyunicorn.Lemmas.RandomD
 import Pyunicorn.Lemmas.RandomE
+import Pyunicorn.Lemmas.RandomF
 /-!
 # C17 — random models and rewirings keep their documented invariants
 
@@ -14,6 +15,7 @@ to the public methods by the exact correspondence in `harness/c17.py`.
 -/
 namespace Pyunicorn.Random
 open Pyunicorn.Generated.ArithC17
+open Pyunicorn.Generated.StructC17
 
 /-! ## geographical rewiring (models I, II, III)
 
@@ -62,7 +64,7 @@ theorem geoRun_invariants (n : Nat) (c : GeoCfg) (iterations : Nat) (draws : Lis
   induction draws generalizing st with
   | nil => simp only [geoRun, Option.some.injEq] at h; subst h; exact ⟨inv, fun _ => rfl, rfl, id⟩
   | cons d ds ih =>
-    simp only [geoRun] at h
+    simp only [geoRun, geoWhile_iff] at h
     split at h
     · rename_i hlt
       cases hs : geoStep c st d with
@@ -99,7 +101,7 @@ theorem geoRun_defined (c : GeoCfg) (iterations : Nat) (draws : List (Nat × Nat
   induction draws generalizing st with
   | nil => exact ⟨st, rfl⟩
   | cons d ds ih =>
-    simp only [geoRun]
+    simp only [geoRun, geoWhile_iff]
     split
     · obtain ⟨h1, h2⟩ := hd d (by simp)
       have hs : ∃ st1, geoStep c st d = some st1 ∧ st1.edges.length = st.edges.length := by
@@ -821,6 +823,247 @@ theorem distKernel_rat_simple (p P : Nat → Nat → Rat) (psym : ∀ i j, p i j
     (∀ i j, distKernel p P i j = distKernel p P j i) ∧ (∀ i, distKernel p P i i = false) :=
   distKernel_simple _ _ _ p P (fun x y => Rat.add_comm x y) psym
 
+/-! ## Round 3
+
+### the source text is the model (`translate/gen_C17.py` → `Generated/StructC17.lean`)
+
+`Model/Random.lean` executes the *generated* definitions; the theorems above are about the closed
+forms.  The following equalities (proved in `Lemmas/RandomSrc.lean`, restated here so that they
+are audited obligations) are what connects the two.  Editing a subscript, a comparison, a written
+value or the order of the writes in `numerics.pyx` changes the left-hand sides. -/
+
+/-- **`cond_len_c1`, `cond_len_c2`, `cond_deg_corr` of `numerics.pyx`** are condition C1
+(either matching of the two old with the two new links within `eps`), condition C2 (for each of
+the four nodes, old and new link read in that node's row of `D` within `eps`) and "the exchanged
+partners `s, k` resp. `t, l` have equal degree". -/
+theorem source_conditions (D : Nat → Nat → Int) (eps : Int) (degree : Nat → Int) (s t k l : Nat) :
+    condLenC1 D eps s t k l = condC1 D eps s t k l ∧
+    condLenC2 D eps s t k l = condC2 D eps s t k l ∧
+    condDegCorr degree s t k l = (degree s == degree k && degree t == degree l) :=
+  ⟨condLenC1_eq D eps s t k l, condLenC2_eq D eps s t k l, condDegCorr_eq degree s t k l⟩
+
+/-- **the loop body of `_randomly_rewire_geomodel` and what the three wrappers hand over**: the
+executed `if`, the eight writes, the two rows written back and the `while` test are the closed
+forms used by `geoStep_inv` … `geoMethod_degree_pairs`. -/
+theorem source_geo_loop (c : GeoCfg) (A : Adj) (s t k l i n : Nat) :
+    geoAcceptM c A s t k l = geoAccept c A s t k l ∧
+    (s ≠ k → s ≠ l → t ≠ k → t ≠ l → s ≠ t → k ≠ l → ∀ a b, rewireM A s t k l a b =
+      if (a = s ∧ b = l) ∨ (a = l ∧ b = s) ∨ (a = t ∧ b = k) ∨ (a = k ∧ b = t) then true
+      else if (a = s ∧ b = t) ∨ (a = t ∧ b = s) ∨ (a = k ∧ b = l) ∨ (a = l ∧ b = k) then false
+      else A a b) ∧
+    geoEdge1 s t k l = (s, l) ∧ geoEdge2 s t k l = (k, t) ∧ (geoWhile i n = true ↔ i < n) ∧
+    wrapperI = (.cond_len_c1, .null) ∧ wrapperII = (.cond_len_c2, .null) ∧
+    wrapperIII = (.cond_len_c2, .cond_deg_corr) :=
+  ⟨geoAcceptM_eq c A s t k l,
+    fun hsk hsl htk htl hst hkl a b => rewire_apply A s t k l a b hsk hsl htk htl hst hkl,
+    rfl, rfl, geoWhile_iff i n, rfl, rfl, rfl⟩
+
+/-- **the cross-link kernels**: tests, writes, the exchange of the link ends (three moves through
+the local `b`) and the subscripts of `overwriteAdjacency` (`nodes1[i]`, `nodes2[j]`, `cross_A[i,j]`,
+written to `A[n1,n2]` and `A[n2,n1]`). -/
+theorem source_cross_kernels (C : Adj) (a b c e i j n1 n2 : Nat) (v : Bool) :
+    setBreak C i j = (!C i j) ∧ applyWrites C (setWrites i j) = C.set i j true ∧
+    rewBreak C a b c e = (!(C a e || C c b)) ∧
+    (a ≠ c → b ≠ e → ∀ x y, applyWrites C (rewWrites a b c e) x y =
+      if (x = a ∧ y = e) ∨ (x = c ∧ y = b) then true
+      else if (x = a ∧ y = b) ∨ (x = c ∧ y = e) then false else C x y) ∧
+    owRead i j = (i, j) ∧ owCell i j = (i, j) ∧
+    (∀ w, w ∈ owWrites n1 n2 v ↔ (w = (n1, n2, v) ∨ w = (n2, n1, v))) ∧
+    owLoops = [("i", "m"), ("j", "n")] :=
+  ⟨setBreak_eq C i j, rfl, rewBreak_eq C a b c e,
+    fun hac hbe x y => swap_apply C a b c e x y hac hbe, rfl, rfl,
+    fun w => mem_owWrites n1 n2 v w, rfl⟩
+
+/-- the exchange `b = cross_links[e1,1]; cross_links[e1,1] = cross_links[e2,1]; cross_links[e2,1] = b`
+turns the rows `(a,b)`, `(c,e)` into `(a,e)`, `(c,b)` (also when both draws hit the same row). -/
+theorem source_cross_exchange (L : List (Nat × Nat)) (p q a b c e : Nat) (hp : p < L.length)
+    (hq : q < L.length) (e1 : L[p] = (a, b)) (e2 : L[q] = (c, e)) :
+    (runMoves p q rewMoves (b, L)).2 = (L.set p (a, e)).set q (c, b) :=
+  runMoves_eq L p q a b c e hp hq e1 e2
+
+/-- **`RandomlySetCrossLinks_sparse` is a Python copy of the compiled kernel + `overwriteAdjacency`**
+(same test, same writes, same subscripts, same draw expression as the geo kernel): the one model
+`randomlySetCrossLinks` serves both methods. -/
+theorem source_sparse_copy : sparseBreak = setBreak ∧ sparseWrites = setWrites ∧
+    sparseOwRead = owRead ∧ sparseOwCell = owCell ∧
+    (∀ a b v w, w ∈ sparseOwWrites a b v ↔ w ∈ owWrites a b v) ∧
+    sparseDraw = geoDraw := sparse_copy_eq
+
+/-- **which node list indexes what** (`RandomlyRewireCrossLinks`, `RandomlySetCrossLinks`): the
+cross adjacency, the list of cross links and the two index arrays handed to the kernel are built
+from the caller's `node_list1` / `node_list2` *in the caller's order*, without sorting or
+de-duplication — row `i` of `cross_A` is node `node_list1[i]` on both sides, which is what
+`crossBlock` / `overwrite` (one list for both uses) assume. -/
+theorem source_node_list_indexing :
+    rewireArgs = [("A_new", "network.adjacency.astype(ADJ)"),
+      ("cross_A", "network.cross_adjacency(node_list1, node_list2).astype(ADJ)"),
+      ("cross_links", "np.array(cross_A.nonzero(), dtype=NODE).transpose()"),
+      ("nodes1", "np.array(node_list1, dtype=NODE)"), ("nodes2", "np.array(node_list2, dtype=NODE)"),
+      ("number_cross_links", "cross_A.sum()"), ("number_swaps", "NODE(swaps * number_cross_links)")] ∧
+    setArgs = [("A_new", "network.adjacency.astype(ADJ)"), ("cross_A_new", "np.zeros((N1, N2), dtype=ADJ)"),
+      ("number_cross_links", "number_cross_links"),
+      ("nodes1", "np.array(node_list1, dtype=NODE)"), ("nodes2", "np.array(node_list2, dtype=NODE)"),
+      ("N1", "len(nodes1)"), ("N2", "len(nodes2)")] ∧
+    setCrossA = "network.cross_adjacency(nodes1, nodes2).astype(ADJ)" := by
+  refine ⟨?_, ?_, ?_⟩ <;> decide
+
+/-! ### cross degrees per node, for arbitrary (unsorted, duplicate-free) node lists -/
+
+/-- **writing the unchanged cross block back is the identity**: `overwriteAdjacency` with the
+cross adjacency just extracted with the same two lists returns the input network, whatever the
+order of the lists (a disagreement between the two sites about which row is which node would
+show here). -/
+theorem overwrite_crossBlock_id (A : Adj) (nodes1 nodes2 : List Nat)
+    (nd1 : NodupIdx nodes1) (nd2 : NodupIdx nodes2) (dis : ∀ x, x ∈ nodes1 → x ∉ nodes2)
+    (sym : ∀ a b, A a b = A b a) :
+    overwrite A (crossBlock A nodes1 nodes2) nodes1 nodes2 = A := by
+  funext a b
+  by_cases h1 : a ∈ nodes1 ∧ b ∈ nodes2
+  · obtain ⟨i, hi⟩ := List.getElem?_of_mem h1.1
+    obtain ⟨j, hj⟩ := List.getElem?_of_mem h1.2
+    rw [(overwrite_block A _ nodes1 nodes2 nd1 nd2 dis i j a b hi hj).1,
+      ← crossBlock_eq A nodes1 nodes2 i j a b hi hj]
+  · by_cases h2 : a ∈ nodes2 ∧ b ∈ nodes1
+    · obtain ⟨i, hi⟩ := List.getElem?_of_mem h2.2
+      obtain ⟨j, hj⟩ := List.getElem?_of_mem h2.1
+      rw [(overwrite_block A _ nodes1 nodes2 nd1 nd2 dis i j b a hi hj).2,
+        ← crossBlock_eq A nodes1 nodes2 i j b a hi hj, sym]
+    · exact overwrite_untouched A _ _ _ a b h1 h2
+
+/-- **`RandomlyRewireCrossLinks(swaps = 0)` returns the input network**, for every order of the
+node lists and every stream. -/
+theorem randomlyRewireCrossLinks_zero (A : Adj) (nodes1 nodes2 : List Nat) (draws : List (Nat × Nat))
+    (nd1 : NodupIdx nodes1) (nd2 : NodupIdx nodes2) (dis : ∀ x, x ∈ nodes1 → x ∉ nodes2)
+    (sym : ∀ a b, A a b = A b a) :
+    (randomlyRewireCrossLinks A nodes1 nodes2 0 draws).map (·.1) = some A := by
+  have hrun : ∀ st, crossRun 0 draws st = some st := by
+    intro st; cases draws <;> simp [crossRun]
+  simp only [randomlyRewireCrossLinks, hrun, Option.map_some]
+  rw [overwrite_crossBlock_id A nodes1 nodes2 nd1 nd2 dis sym]
+
+/-- **cross degrees and internal links per node — independent of the order of the node lists**:
+after `RandomlyRewireCrossLinks`, every node of group 1 has as many neighbours in group 2 as
+before, every node of group 2 as many in group 1, and all links inside a group are as they were.
+`grpDeg A N G x` counts the neighbours of `x` among the *set* of nodes `G`; nothing in the
+statement refers to positions in the lists. -/
+theorem randomlyRewireCrossLinks_group_degrees (A : Adj) (nodes1 nodes2 : List Nat) (N swaps : Nat)
+    (draws : List (Nat × Nat)) (A' : Adj) (st' : CrossSt)
+    (nd1 : NodupIdx nodes1) (nd2 : NodupIdx nodes2) (dis : ∀ x, x ∈ nodes1 → x ∉ nodes2)
+    (b1 : ∀ x ∈ nodes1, x < N) (b2 : ∀ x ∈ nodes2, x < N)
+    (sym : ∀ a b, A a b = A b a) (lf : ∀ a, A a a = false)
+    (h : randomlyRewireCrossLinks A nodes1 nodes2 swaps draws = some (A', st')) :
+    (∀ x ∈ nodes1, grpDeg A' N nodes2 x = grpDeg A N nodes2 x) ∧
+    (∀ y ∈ nodes2, grpDeg A' N nodes1 y = grpDeg A N nodes1 y) ∧
+    (∀ x y, x ∈ nodes1 → y ∈ nodes1 → A' x y = A x y) ∧
+    (∀ x y, x ∈ nodes2 → y ∈ nodes2 → A' x y = A x y) := by
+  obtain ⟨s1, -, unt, -, hblock, hrow, hcol, -⟩ :=
+    randomlyRewireCrossLinks_spec A nodes1 nodes2 N swaps draws A' st' nd1 nd2 dis b1 b2 sym lf h
+  refine ⟨?_, ?_, ?_, ?_⟩
+  · intro x hx
+    obtain ⟨i, hi⟩ := List.getElem?_of_mem hx
+    rw [grpDeg_eq_row A' N nodes1 nodes2 nd2 b2 i x hi, hblock, hrow i,
+      ← grpDeg_eq_row A N nodes1 nodes2 nd2 b2 i x hi]
+  · intro y hy
+    obtain ⟨j, hj⟩ := List.getElem?_of_mem hy
+    rw [grpDeg_eq_col A' N nodes1 nodes2 nd1 b1 s1 j y hj, hblock, hcol j,
+      ← grpDeg_eq_col A N nodes1 nodes2 nd1 b1 sym j y hj]
+  · intro x y hx hy
+    exact unt x y (fun hh => dis y hy hh.2) (fun hh => dis x hx hh.1)
+  · intro x y hx hy
+    exact unt x y (fun hh => dis x hh.1 hx) (fun hh => dis y hh.2 hy)
+
+/-! ### configuration model and `BarabasiAlbert_igraph`: `simplify` -/
+
+/-- **`Network.Configuration(degree)`: the requested degrees are never exceeded.**  igraph's
+`Degree_Sequence` returns a (multi)graph on `n` nodes in which node `v` has `degree[v]` incident
+link ends (its contract — trusted, checked on every call by the harness; loops count twice);
+pyunicorn's part is `simplify()` + `get_adjacency`: the result is symmetric, loop-free, contains
+only links igraph produced, and every node has at most the requested degree. -/
+theorem configuration_spec (n : Nat) (es : List (Nat × Nat)) (degree : Nat → Int)
+    (hinc : ∀ v, inc es v = degree v) :
+    (∀ a b, simplified es a b = simplified es b a) ∧ (∀ a, simplified es a a = false) ∧
+    (∀ v, deg (simplified es) n v ≤ degree v) ∧
+    (∀ a b, simplified es a b = true → ∃ e ∈ es, sameLink e (a, b)) := by
+  refine ⟨?_, ?_, ?_, ?_⟩
+  · intro a b
+    rw [Bool.eq_iff_iff, simplified_iff, simplified_iff]
+    simp only [sameLink]
+    constructor <;> rintro ⟨h, e, he, hs⟩ <;> exact ⟨fun hh => h hh.symm, e, he, by omega⟩
+  · intro a; simp [simplified]
+  · intro v; rw [← hinc v]; exact deg_simplified_le n es v
+  · intro a b hab; exact ((simplified_iff es a b).1 hab).2
+
+/-- …and when igraph's graph happens to be simple already, every node gets exactly the requested
+degree. -/
+theorem configuration_exact_of_simple (n : Nat) (es : List (Nat × Nat)) (degree : Nat → Int)
+    (hs : SimpleEdges n es) (hinc : ∀ v, inc es v = degree v) (v : Nat) :
+    deg (simplified es) n v = degree v := by
+  rw [simplified_of_simple n es hs, deg_linkAny n es hs v, hinc v]
+
+/-! ### draws: "index in range" from the RNG's contract `0 ≤ u < 1` -/
+
+/-- **`np.floor(rd.random() * E)` and `int(random.random() * N)`** (the generated expressions)
+are valid indices whenever `0 ≤ u < 1` and the array has at least one row. -/
+theorem draw_in_range (u : Rat) (E : Int) (h0 : 0 ≤ u) (h1 : u < 1) (hE : 0 < E) :
+    (0 ≤ geoDraw u E ∧ geoDraw u E < E) ∧ (0 ≤ sparseDraw u E ∧ sparseDraw u E < E) :=
+  ⟨geoDraw_range u E h0 h1 hE, geoDraw_range u E h0 h1 hE⟩
+
+/-- **`randomly_rewire_geomodel_I/II/III` cannot raise IndexError, stated for the RNG values**:
+for a simple undirected network with `E ≥ 1` links and any values `u ∈ [0, 1)` returned by
+`rd.random()`, the run is defined. -/
+theorem geoMethod_defined_uniform (mode : GeoMode) (D : Nat → Nat → Int) (eps : Int) (n : Nat)
+    (A : Adj) (iterations : Nat) (us : List (Rat × Rat)) (E : Nat)
+    (sym : ∀ i j, A i j = A j i) (lf : ∀ i, A i i = false)
+    (hE : total A n n = 2 * (E : Int)) (hpos : 0 < E)
+    (hu : ∀ u ∈ us, (0 ≤ u.1 ∧ u.1 < 1) ∧ (0 ≤ u.2 ∧ u.2 < 1)) :
+    ∃ st', geoMethod mode D eps n A iterations
+      (us.map fun u => ((geoDraw u.1 E).toNat, (geoDraw u.2 E).toNat)) = some st' := by
+  apply geoMethod_defined mode D eps n A iterations _ E sym lf hE
+  intro d hd
+  simp only [List.mem_map] at hd
+  obtain ⟨u, hu', rfl⟩ := hd
+  obtain ⟨⟨a0, a1⟩, ⟨c0, c1⟩⟩ := hu u hu'
+  have r1 := geoDraw_range u.1 E a0 a1 (by omega)
+  have r2 := geoDraw_range u.2 E c0 c1 (by omega)
+  simp only
+  omega
+
+/-! ### existence of an admissible swap: what "defined" means for the rewiring loops -/
+
+/-- **`_randomlyRewireCrossLinks` terminates iff an admissible pair of cross links exists**:
+if there is none, no stream of draws ever changes the state (the `while True` never breaks);
+if there is one, some draw makes the swap.  (`crossAdmissible` is executed by the driver and
+compared with the behaviour of the compiled kernel under an exhaustive stream.) -/
+theorem crossRewire_admissible (swaps : Nat) (st : CrossSt) :
+    (crossAdmissible st.C st.links = false →
+      ∀ draws st', crossRun swaps draws st = some st' → st' = st) ∧
+    (crossAdmissible st.C st.links = true →
+      ∃ d st', crossStep st d = some st' ∧ st'.done = st.done + 1) :=
+  ⟨fun hno draws st' h => crossRun_stuck swaps draws st st' hno h, crossStep_progress st⟩
+
+/-- **the geographical rewiring loop likewise**: without an admissible pair of links every draw
+is rejected and the state never changes; with one, some draw rewires. -/
+theorem geoRewire_admissible (c : GeoCfg) (iterations : Nat) (st : GeoSt) :
+    (geoAdmissible c st.A st.edges = false →
+      ∀ draws st', geoRun c iterations draws st = some st' → st' = st) ∧
+    (geoAdmissible c st.A st.edges = true →
+      ∃ d st', geoStep c st d = some st' ∧ st'.i = st.i + 1) :=
+  ⟨fun hno draws st' h => geoRun_stuck c iterations draws st st' hno h, geoStep_progress c st⟩
+
+/-! ### `set_random_links_by_distance`: the hypothesis is on the distance matrix only -/
+
+/-- `p = exp(a + b·D)` is an *element-wise* function of `D`, so it is symmetric as soon as
+`D = grid.distance()` is (property C12); nothing about `exp` or the float arithmetic is needed:
+for every function `f`, every symmetric `D` and every random matrix `P` the result is a simple
+undirected graph. -/
+theorem distKernel_of_distance {α β : Type} (ge : α → α → Bool) (half : α → α) (add : α → α → α)
+    (f : β → α) (D : Nat → Nat → β) (P : Nat → Nat → α)
+    (comm : ∀ x y, add x y = add y x) (Dsym : ∀ i j, D i j = D j i) :
+    (∀ i j, distKernelG ge half add (fun i j => f (D i j)) P i j
+        = distKernelG ge half add (fun i j => f (D i j)) P j i) ∧
+    (∀ i, distKernelG ge half add (fun i j => f (D i j)) P i i = false) :=
+  distKernel_simple ge half add _ P comm (fun i j => by rw [Dsym i j])
+
 /-! ## non-vacuity: concrete states satisfying the hypotheses, with a rewiring that happens -/
 
 /-- two disjoint links `0—1`, `2—3` -/
@@ -931,5 +1174,32 @@ example : (fromEdges 4 [(0, 3), (3, 0), (2, 1)]).map (fun F => toMat F 4 4) =
 example : toMat (distKernel (fun _ _ => 1 / 2) (fun i j => if i < j then 1 / 4 else 1 / 2)) 2 2
     = [[false, true], [true, false]] := by decide +kernel
 
+
+/-! non-vacuity, round 3 -/
+
+/-- unsorted node lists: group 1 = `[2, 0]`, group 2 = `[3, 1]` -/
+example : toMat (crossBlock exA [2, 0] [3, 1]) 2 2 = [[true, false], [false, true]] := by decide
+example : (randomlyRewireCrossLinks exA [2, 0] [3, 1] 1 [(0, 0), (0, 1)]).map
+    (fun r => (toMat r.1 4 4, r.2.links)) =
+    some ([[false, false, false, true], [false, false, true, false],
+           [false, true, false, false], [true, false, false, false]], [(0, 1), (1, 0)]) := by
+  decide
+example : grpDeg exA 4 [3, 1] 2 = 1 ∧ grpDeg exA 4 [3, 1] 0 = 1 := by decide
+/-- `C17-2`, `C17-3` style edits change these values -/
+example : condLenC2 (fun i j => if i = 3 ∧ j = 0 then 9 else 0) 1 0 1 2 3 = false := by decide
+example : condDegCorr (fun v => if v = 0 ∨ v = 2 then 1 else 2) 0 1 2 3 = true := by decide
+/-- a multigraph with a loop and a double link: degrees 3, 2, 3 requested, 1, 1, 2 obtained -/
+example : inc [(0, 0), (0, 2), (1, 2), (2, 1)] 0 = 3 ∧ inc [(0, 0), (0, 2), (1, 2), (2, 1)] 2 = 3 := by
+  decide
+example : toMat (simplified [(0, 0), (0, 2), (1, 2), (2, 1)]) 3 3 =
+    [[false, false, true], [false, false, true], [true, true, false]] := by decide
+example : geoDraw (3 / 4) 4 = 3 ∧ geoDraw 0 4 = 0 := by decide +kernel
+/-- a complete bipartite cross block has no admissible swap; two parallel links have one -/
+example : crossAdmissible (fun _ _ => true) [(0, 0), (0, 1), (1, 0), (1, 1)] = false := by decide
+example : crossAdmissible exC [(0, 0), (1, 1)] = true := by decide
+/-- a triangle cannot be rewired, two disjoint links can -/
+example : geoAdmissible (exCfg .I) (fun i j => decide (i ≠ j ∧ i < 3 ∧ j < 3)) [(0, 1), (0, 2), (1, 2)]
+    = false := by decide
+example : geoAdmissible (exCfg .I) exA [(0, 1), (2, 3)] = true := by decide
 
 end Pyunicorn.Random
